@@ -71,6 +71,11 @@ func raceFrames(report string) (funcs []string, inRepo bool) {
 			if strings.HasPrefix(fn, "runtime.") || strings.HasPrefix(file, "internal/runtime/") || strings.HasPrefix(file, "runtime/") {
 				continue
 			}
+			if strings.Contains(file, "zzverif/simrt/order.go") {
+				// the seeded iteration wrappers stand in for a `range` of the code under test: the access
+				// belongs to their caller
+				continue
+			}
 			short := fn[strings.LastIndex(fn, "/")+1:]
 			funcs = append(funcs, short)
 			if !strings.Contains(file, "github.com/pentops/j5/") || strings.Contains(file, "zzverif") {
@@ -213,6 +218,9 @@ func runSim(w *Workload, prep [][]*Prepared, warm []*Prepared, cfg RunCfg, keepE
 	if nativeFallback() {
 		return runNative(w, prep, warm, cfg)
 	}
+	// the simulated clock runs from before the shared object exists (a cache that notes its creation
+	// time must not see the real clock), and stays on afterwards: nothing in this process reads real time
+	simrt.StartClock(cfg.Seed)
 	env := newEnv(w.Codec)
 	for _, p := range warm {
 		execOp(env, p) // before any task exists: a real happens-before edge, as in main()
@@ -225,8 +233,6 @@ func runSim(w *Workload, prep [][]*Prepared, warm []*Prepared, cfg RunCfg, keepE
 	// that the caller really is the task holding the baton
 	sim.SetCheckGoid(rewriteGoStmts > 0)
 	installPermHook(cfg.PermSeed, 0)
-	simrt.StartClock(cfg.Seed)
-	defer simrt.StopClock()
 	for t := range w.Tasks {
 		t := t
 		res.Outcomes[t] = make([]Outcome, len(w.Tasks[t]))
@@ -339,6 +345,13 @@ func (a *Admissible) addSeq(w *Workload, t, i int, o Outcome, how string) {
 	}
 }
 
+// aloneOp runs one operation on a fresh instance of its own, on a simulated day that depends on the
+// operation only (so that "alone" means the same in every process).
+func aloneOp(codecKind string, p *Prepared) Outcome {
+	simrt.StartClock(simrt.Derive(0xa10e, p.Spec.ValSeed, simrt.HashString(p.Spec.Kind+p.Spec.Type)))
+	return execOp(newEnv(codecKind), p)
+}
+
 // runSequential executes the workload with the given global order of
 // (task, op) steps on one shared environment. It runs as a single simulated
 // task, so that a lock that is never released shows up as a detected
@@ -369,6 +382,7 @@ func runSequential(w *Workload, prep [][]*Prepared, warm []*Prepared, order [][2
 	}
 	sim := simrt.NewSim(1, simrt.Policy{Mode: "serial"})
 	simrt.SetPermHook(nil)
+	simrt.StartClock(0x5e9 + uint64(len(order))) // the reference runs on another simulated day
 	sim.Spawn("seq", func() {
 		env := newEnv(w.Codec)
 		for _, p := range warm {
@@ -467,7 +481,7 @@ func computeAdmissible(w *Workload, prep [][]*Prepared, warm []*Prepared, seed u
 			a.seqClasses[t][i] = map[string]bool{}
 			// (i) alone, on a fresh private instance
 			t, i := t, i
-			if !callWithTimeout(func() { a.alone[t][i] = execOp(newEnv(w.Codec), prep[t][i]) }) {
+			if !callWithTimeout(func() { a.alone[t][i] = aloneOp(w.Codec, prep[t][i]) }) {
 				a.SeqDeadlock = true
 				return a
 			}
@@ -486,7 +500,7 @@ func computeAdmissible(w *Workload, prep [][]*Prepared, warm []*Prepared, seed u
 		for i := len(w.Tasks[t]) - 1; i >= 0; i-- {
 			al := a.alone[t][i]
 			var o Outcome
-			if !callWithTimeout(func() { o = execOp(newEnv(w.Codec), prep[t][i]) }) {
+			if !callWithTimeout(func() { o = aloneOp(w.Codec, prep[t][i]) }) {
 				a.SeqDeadlock = true
 				return a
 			}
@@ -502,7 +516,7 @@ func computeAdmissible(w *Workload, prep [][]*Prepared, warm []*Prepared, seed u
 					// error text that survives is independent of iteration order and is compared exactly
 					simrt.SetPermHook(reversed)
 					var o3 Outcome
-					ok := callWithTimeout(func() { o3 = execOp(newEnv(w.Codec), prep[t][i]) })
+					ok := callWithTimeout(func() { o3 = aloneOp(w.Codec, prep[t][i]) })
 					simrt.SetPermHook(nil)
 					if !ok {
 						a.SeqDeadlock = true
